@@ -77,7 +77,7 @@ def compute_target_values(targets, potential_args):
         if type(v) == str:
             target_values[i] = potential_args[t] - potential_args[v]
         else:
-            target_values[i] = potential_args[t] - v
+            target_values[i] = potential_args[t] - float(v)  # numpy's low-precision scalars (e.g. np.float32) would otherwise pull the residual down to their precision
 
     # Univariate solvers require float return values (and not lists)
     if len(targets) == 1:
